@@ -544,8 +544,6 @@ def rt_supported(w, cfg, cfg2, t):
     for c in (cfg, cfg2):
         if not c[0] and not base_ok(w, t):
             return False
-        if c[2] == "tuple" and reaches(w, t, has_kw_only):
-            return False          # positional structuring cannot pass keyword-only attributes
     return True
 
 
@@ -686,7 +684,7 @@ def oracle_c06_unstruct(v, w, t, x, outs):
 
 def flags_of(t1_summary):
     g = t1_summary.get("gen") or {}
-    return {"recheck": bool(g.get("detailed_rechecks_errors", False)), "kw_last": bool(g.get("fast_kw_last", False))}
+    return {"recheck": bool(g.get("detailed_rechecks_errors", False)), "kw_last": bool(g.get("fast_kw_last", False)), "tuple_kw": bool(g.get("tuple_by_kw", False))}
 
 
 def check_conv(v: Verdict, prop: str, t1_summary, n_worlds: int):
